@@ -769,7 +769,8 @@ def purity(ctx, chk, only=None, strict=None):
             from ..alias import shared_buffer_findings
             helpers = dict((nm_, f_.node) for nm_, f_ in (fi_.cls.methods.items() if fi_.cls is not None else ()))
             helpers.update((nm_, f_.node) for nm_, f_ in fi_.module.functions.items())
-            for line_, text_ in shared_buffer_findings(fi_.node, helpers):
+            classes_ = {nm_: c_.node for nm_, c_ in fi_.module.classes.items()}
+            for line_, text_ in shared_buffer_findings(fi_.node, helpers, classes_):
                 class _N:  # noqa: N801
                     lineno = line_
                 finds.append(("shared-buffer", text_, {"node": _N}))
